@@ -20,7 +20,9 @@ def reduce_requirements(
         lambda: None
     )
     for req in raw_reqs:
-        reqs[req.project_name] = merge_requirements(reqs[req.project_name], req)
+        # Different spellings of one project (Foo-Bar, foo_bar) are one key
+        key = normalize_project_name(req.project_name)
+        reqs[key] = merge_requirements(reqs[key], req)
 
     return list(req for req in reqs.values() if req is not None)
 
